@@ -128,3 +128,17 @@ Fixpoint dynamic_session (calls : nat) (ps : list fetch) (fs : option (list fetc
 (* the file contents a script can serve *)
 Definition script_files (s : list fetch) : list (list N) :=
   flat_map (fun f => match f with FData d => [d] | _ => [] end) s.
+
+(* ------------------------------------------------------------------------------------------- *)
+(* Path 1 — one proposer service, several proposals one after the other; the collaborators answer
+   proposal by proposal (the service keeps nothing between proposals: each is [propose] on its own
+   input).  Observation per proposal: panicked?, what the mocks saw; the list ends at the first
+   panic. *)
+Fixpoint propose_seq (g : bool) (ops : list p1_in) : list (bool * p1_trace) :=
+  match ops with
+  | [] => []
+  | i :: ops' =>
+      let p := is_panic (snd (propose g i)) in
+      (p, fst (propose g i)) :: if p then [] else propose_seq g ops'
+  end.
+Definition propose_seq_now := propose_seq true.
